@@ -531,3 +531,39 @@ func ScriptF14(nextID *int) History {
 	recTx(&h, nextID, 3, u2, Msg{Tag: 2, Signer: id(u2), A: tid, X: a, Y: b}, &m3)
 	return h
 }
+
+// ScriptDust: two providers, a large external->native swap so that one pool unit is worth less than
+// half a base unit on both sides, then dust removals (1 unit / 1 basis point) — removals that pay nothing.
+func ScriptDust(rng *chain.Rng, hid int, nextID *int) History {
+	e := env.New(env.Opts{NUsers: 3, Tokens: []string{"cusdc"}})
+	h := History{ID: hid, Env: e, Desc: map[string]interface{}{"template": "dust-removal", "tokens": []string{"cusdc"}}}
+	e.BeginBlock()
+	mustOK(e.UpdateRewardsParams(0, 0, 0, "", false), "rewards params")
+	tid := e.DenomID["cusdc"]
+	asset := clptypes.NewAsset("cusdc")
+	u0, u1, u2 := e.Users[0], e.Users[1], e.Users[2]
+	id := func(a chain.Account) int64 { return e.AcctID[a.Addr.String()] }
+	n := new(big.Int).Mul(big.NewInt(int64(1+rng.Intn(2000))), chain.E(18))
+	x := new(big.Int).Mul(big.NewInt(int64(1+rng.Intn(2000))), chain.E(int64(3+rng.Intn(6))))
+	m1 := clptypes.NewMsgCreatePool(u0.Addr, asset, env.U(n), env.U(x))
+	recTx(&h, nextID, 0, u0, Msg{Tag: 1, Signer: id(u0), A: tid, X: n, Y: x}, &m1)
+	n2, x2 := new(big.Int).Div(n, big.NewInt(int64(1+rng.Intn(4)))), new(big.Int).Div(x, big.NewInt(int64(1+rng.Intn(4))))
+	m2 := clptypes.NewMsgAddLiquidity(u1.Addr, asset, env.U(n2), env.U(x2))
+	recTx(&h, nextID, 1, u1, Msg{Tag: 2, Signer: id(u1), A: tid, X: n2, Y: x2}, &m2)
+	// buy most of the rowan
+	amt := new(big.Int).Mul(x, big.NewInt(int64(2+rng.Intn(6))))
+	m3 := clptypes.NewMsgSwap(u2.Addr, asset, clptypes.NewAsset("rowan"), env.U(amt), env.U(big.NewInt(0)))
+	recTx(&h, nextID, 2, u2, Msg{Tag: 5, Signer: id(u2), A: tid, B: 0, X: amt, Y: big.NewInt(0)}, &m3)
+	for i := 0; i < 3; i++ {
+		u := []chain.Account{u0, u1}[rng.Intn(2)]
+		if rng.Intn(2) == 0 {
+			units := big.NewInt(int64(1 + rng.Intn(2)))
+			m := clptypes.NewMsgRemoveLiquidityUnits(u.Addr, asset, env.U(units))
+			recTx(&h, nextID, 3+i, u, Msg{Tag: 4, Signer: id(u), A: tid, X: units}, &m)
+		} else {
+			m := clptypes.NewMsgRemoveLiquidity(u.Addr, asset, sdk.NewInt(1), sdk.NewInt(0))
+			recTx(&h, nextID, 3+i, u, Msg{Tag: 3, Signer: id(u), A: tid, X: big.NewInt(1), Y: big.NewInt(0)}, &m)
+		}
+	}
+	return h
+}
